@@ -579,12 +579,11 @@ type c13SpinSample struct {
 	frames    string
 	fd        int
 	pos       int64
-	syscr     int64
 	cpu       time.Duration
 }
 
 func c13Sample(target string) c13SpinSample {
-	s := c13SpinSample{at: time.Now(), fd: -1, pos: -1, syscr: -1}
+	s := c13SpinSample{at: time.Now(), fd: -1, pos: -1}
 	buf := make([]byte, 1<<20)
 	buf = buf[:runtime.Stack(buf, true)]
 	for _, g := range strings.Split(string(buf), "\n\n") {
@@ -609,31 +608,20 @@ func c13Sample(target string) c13SpinSample {
 		s.frames = strings.Join(fr, " < ")
 		break
 	}
-	if ents, err := os.ReadDir("/proc/self/fd"); err == nil {
-		for _, e := range ents {
-			l, err := os.Readlink("/proc/self/fd/" + e.Name())
-			if err != nil || l != target {
+	// Find the descriptor open on the target and its offset WITHOUT opening or
+	// closing any descriptor (readlink + lseek only): the traced helper of the
+	// crash check runs this concurrently with the call under test, and the
+	// descriptor numbers seen by strace must stay attributable.
+	if target != "" {
+		buf := make([]byte, 4200)
+		for fd := 0; fd < 256; fd++ {
+			n, err := syscall.Readlink("/proc/self/fd/"+strconv.Itoa(fd), buf)
+			if err != nil || string(buf[:n]) != target {
 				continue
 			}
-			b, err := os.ReadFile("/proc/self/fdinfo/" + e.Name())
-			if err != nil {
-				continue
-			}
-			for _, line := range strings.Split(string(b), "\n") {
-				if v, ok := strings.CutPrefix(line, "pos:"); ok {
-					s.fd, _ = strconv.Atoi(e.Name())
-					s.pos, _ = strconv.ParseInt(strings.TrimSpace(v), 10, 64)
-				}
-			}
-			if s.fd >= 0 {
+			if pos, err := syscall.Seek(fd, 0, 1 /* SEEK_CUR */); err == nil {
+				s.fd, s.pos = fd, pos
 				break
-			}
-		}
-	}
-	if b, err := os.ReadFile("/proc/self/io"); err == nil {
-		for _, line := range strings.Split(string(b), "\n") {
-			if v, ok := strings.CutPrefix(line, "syscr:"); ok {
-				s.syscr, _ = strconv.ParseInt(strings.TrimSpace(v), 10, 64)
 			}
 		}
 	}
@@ -654,7 +642,7 @@ const (
 // c13NoProgress says whether between two samples the call made no progress
 // while consuming CPU: the goroutine is inside ctlog.compareFile and
 // running/runnable (not blocked) in both, the offset of the descriptor open on
-// the target did not move, and the process burned CPU time or issued reads.
+// the target did not move, and the process burned CPU time meanwhile.
 func c13AllNoProgress(h []c13SpinSample) bool {
 	for i := 1; i < len(h); i++ {
 		if !c13NoProgress(h[i-1], h[i]) {
@@ -668,7 +656,7 @@ func c13NoProgress(a, b c13SpinSample) bool {
 	if !(a.inCompare && b.inCompare && a.runnable && b.runnable && a.fd >= 0 && a.fd == b.fd && a.pos == b.pos) {
 		return false
 	}
-	return b.cpu-a.cpu >= 10*time.Millisecond || (a.syscr >= 0 && b.syscr-a.syscr >= 200)
+	return b.cpu-a.cpu >= 10*time.Millisecond
 }
 
 // c13Call runs one backend call in its own goroutine. It returns the call's
@@ -700,8 +688,8 @@ func c13Call(target string, f func() ([]byte, error)) (c13Ret, *c13Hang, error) 
 				zr = "; the stack shows os.(*File).Read called with a zero-length buffer"
 			}
 			return c13Ret{}, &c13Hang{where: "ctlog.compareFile", evidence: fmt.Sprintf(
-				"%d stack samples over %v all running in [%s]; offset of fd %d on the object stayed at %d while the process burned %v of CPU and issued %d read system calls%s",
-				c13SpinSamples, s.at.Sub(a.at).Round(time.Millisecond), s.frames, s.fd, s.pos, (s.cpu - a.cpu).Round(time.Millisecond), s.syscr-a.syscr, zr)}, nil
+				"%d stack samples over %v all running in [%s]; offset of fd %d on the object stayed at %d while the process burned %v of CPU%s",
+				c13SpinSamples, s.at.Sub(a.at).Round(time.Millisecond), s.frames, s.fd, s.pos, (s.cpu - a.cpu).Round(time.Millisecond), zr)}, nil
 		}
 		if el := time.Since(start); el > c13HardDeadline {
 			return c13Ret{}, nil, fmt.Errorf("backend call still running after %v but not confirmed to be spinning (last stack: %s)", el.Round(time.Second), s.frames)
